@@ -266,7 +266,13 @@ def check_string_buffers(ctx, unit, tag="", only_chart=None):
         for f in fns:
             if f.kind == "ctor" and not f.get("delegating"):
                 sf = StrFn(f, chart)
-                ok = "this._buffer" in sf.allocations()
+                al = sf.allocations()
+                # allocated directly into the field, or into a local (possibly of a virtually inlined helper) that is
+                # then stored into the field
+                ok = "this._buffer" in al or any(
+                    write_of(n) and write_of(n)[0] == ("this", "_buffer") and write_of(n)[1] is not None
+                    and std_unwrap(write_of(n)[1]).kind == "DeclRefExpr" and std_unwrap(write_of(n)[1]).d["d"] in al
+                    for n in f.events())
                 nulls = [n for n in f.events() if write_of(n) and write_of(n)[0] == ("this", "_buffer") and write_of(n)[1] is not None
                          and _is_null(write_of(n)[1])]
                 ctx.inst("I.buffer-nonnull", "%s::<ctor>(%s)" % (STR, ", ".join(p["n"] for p in f.params())),
@@ -341,7 +347,7 @@ def check_views(ctx, unit):
                 idx = n.children[1]
                 base = path(n.children[0])
                 facts = flow.facts_at(f, n.id)
-                lens_equal = any(_eq_lengths(c, t) for c, t in facts)
+                lens_equal = any(_eq_lengths(c, t, f) for c, t in facts)
                 owners = {base[:-1]} | ({("this",)} if lens_equal else set())
                 key = tuple(sorted(owners))
                 if key not in runs:
@@ -469,11 +475,17 @@ def check_views(ctx, unit):
                      "length (size()/strlen, not a bounded scan): %s" % (ok, full), f)
 
 
-def _eq_lengths(cond, truth):
+def _eq_lengths(cond, truth, f=None, depth=0):
     c = cond.strip()
+    while c.kind == "UnaryOperator" and c.op == "!":
+        c, truth = c.children[0].strip(), not truth
     if c.kind == "BinaryOperator" and ((c.op == "!=" and truth is False) or (c.op == "==" and truth)):
         a, b = path(c.children[0]), path(c.children[1])
         return bool(a and b and a[-1] == "_length" and b[-1] == "_length")
+    if f is not None and depth < 3 and c.kind == "DeclRefExpr" and c.get("local") and c.id in f.positions():
+        # a bool local that holds the outcome of the length comparison: every definition that reaches the test
+        defs = flow.reaching_defs(f, c.d["d"], c.id)
+        return bool(defs) and all(d is not None and _eq_lengths(d, truth, f, depth + 1) for d in defs)
     return False
 
 
